@@ -11,10 +11,10 @@ from findings import c08_common as W
 IMPORTS = "From Ford Require Import Base.Str Sem.Calls Sem.CallsSpec Corr.C08."
 THEOREMS = ["C08_strip_levels", "C08_strip_levels_stmt", "C08_keywords_filtered", "C08_literals_inert",
             "C08_literals_any_body", "C08_raw", "C08_raw_segs", "C08_once", "C08_format_inert",
-            "C08_gate", "C08_gate_call", "C08_assoc_step", "C08_raw_assoc", "C08_unit_run", "C08_exact", "C08_refuted_unresolved_array", "C08_refuted_intrinsic_named", "C08_fixed_witnesses"]
-# open regions of Sem/CallsSpec.v region_of (2, 4, 5, 6, 8, 9 were repaired in FORD; 7 = FORD's name tables differ from
+            "C08_gate", "C08_gate_call", "C08_assoc_step", "C08_raw_assoc", "C08_unit_run", "C08_exact", "C08_refuted_unresolved_array", "C08_refuted_keyword_named", "C08_fixed_witnesses"]
+# open regions of Sem/CallsSpec.v region_of (2, 4, 5, 6, 8, 9 and the former 3 were repaired in FORD; 7 = FORD's name tables differ from
 # the program's: repaired by the C07 fix, so a hit there is a violation)
-REGION_KEYS = {1: "unresolved-array", 3: "intrinsic-named-procedure"}
+REGION_KEYS = {1: "unresolved-array", 3: "keyword-named-procedure"}
 RE_TYPE = "str * list str * option str * (bool * bool) * option str * option str * str"
 UNIT_TYPE = "symtab * symtab * list str * option (list str) * option (list stmt) * bool"
 
@@ -144,36 +144,43 @@ def granular(chk, rng, quick):
                   ["aa => f(1)", "sel => p"], ["bb => aa", "cc => sel%inner"], ["aa => arr", "aa => sums"],
                   ["sel => obj%inner", "cc => g(2)"]]
     prev_pool = [[], [["f"]], [["obj", "run"]], [["sub0"], ["a", "get"]]]
+    named_pool = [[], [], [["if"]], [["size"], ["obj", "wait"]], [["write"], ["sum"], ["if"]]]
     for x in masked[:len(corpus) + (300 if quick else 4000)] + [mutate(rng, rng.choice(masked)) for _ in range(100 if quick else 3000)]:
         if not x:
             continue     # never reached: the cascade calls the method only for lines a pattern matched on
         batches = [rng.choice(batch_pool) for _ in range(rng.choice([0, 1, 2, 2, 3]))]
         prev = rng.choice(prev_pool)
-        acases.append((batches, prev, x, I.add_calls(batches, prev, x)))
+        named = rng.choice(named_pool)
+        acases.append((batches, prev, named, x, I.add_calls2(batches, prev, named, x)))
     # nested ASSOCIATE constructs that bind the same name again: every ordered pair of such batches
     rebind = [b for b in batch_pool if any(i.split("=>")[0].strip().lower() in ("aa", "bb", "cc", "sel") for i in b if "=>" in i)]
     for b1 in rebind:
         for b2 in rebind:
             for x in ["x = aa(1) + sel%items(2)", "call sel%run()", "call cc%reset", "y = bb(i) + cc(2)"]:
-                acases.append(([b1, b2], [], x, I.add_calls([b1, b2], [], x)))
+                acases.append(([b1, b2], [], [], x, I.add_calls2([b1, b2], [], [], x)))
     terms = []
-    for batches, prev, x, out in acases:
+    for batches, prev, named, x, out in acases:
         terms.append(f"({coq_list(coq_list(cstr(i) for i in b) for b in batches)}, {coq_list(c_chain(c) for c in prev)}, "
-                     f"{cstr(x)}, {coq_opt(out, lambda o: coq_list(c_chain(c) for c in o))})")
-        chk.count(("add", str(batches), str(prev), x), nontrivial=bool(out) and out != prev,
-                  sample={"line": x, "batches": batches, "calls": out} if len(chk.samples) < 3 and out else None)
-    res = chk.coq_judge(IMPORTS, "list (list str) * list chain * str * option (list chain)", "judge_add", terms)
+                     f"{coq_list(c_chain(c) for c in named)}, {cstr(x)}, "
+                     + coq_opt(out, lambda o: f"({coq_list(c_chain(c) for c in o[0])}, {coq_list(c_chain(c) for c in o[1])})") + ")")
+        chk.count(("add", str(batches), str(prev), str(named), x), nontrivial=bool(out) and (out[0] != prev or out[1] != named),
+                  sample={"line": x, "batches": batches, "calls": out[0], "candidates": out[1]}
+                  if len(chk.samples) < 3 and out and out[0] else None)
+    res = chk.coq_judge(IMPORTS, "list (list str) * list chain * list chain * str * option (list chain * list chain)",
+                        "judge_add", terms)
     if res is not None:
         chk.traces += len(acases)
         dups = [i for i in sorted(res) if res[i] & 2]
         for idx in dups[:3] + [i for i in sorted(res) if not res[i] & 2][:3]:
-            batches, prev, x, out = acases[idx]
+            batches, prev, named, x, out = acases[idx]
             if res[idx] & 2:     # property: each call recorded once
                 chk.violation("failing-input", {"what": "_add_procedure_calls records a call chain twice", "line": x,
-                                                "batches": batches, "earlier": prev, "impl": out}, True)
+                                                "batches": batches, "earlier": prev, "candidates": named,
+                                                "impl": None if out is None else list(out)}, True)
             else:
                 chk.violation("broken-correspondence", {"what": "_add_procedure_calls vs model", "line": x,
-                                                        "batches": batches, "earlier": prev, "impl": out}, False)
+                                                        "batches": batches, "earlier": prev, "candidates": named,
+                                                        "impl": None if out is None else list(out)}, False)
     # D. _add_procedure_calls on statements whose AST is known: model AND Spec (references of the statement)
     scases = []
     for text, st in stmts:
@@ -207,7 +214,7 @@ def granular(chk, rng, quick):
 
 KNOB_SETS = [{}, {}, {}, {"shadow": True}, {"unknown_array": True}, {"intrinsic_named": True},
              {"labelled_bare_call": True, "p_label": 0.3}, {"format_nospace": True}, {"assoc_expr": True},
-             {"goto_expr": True}, {"shadow": True, "p_label": 0.2}]
+             {"goto_expr": True}, {"shadow": True, "p_label": 0.2}, {"intrinsic_named": True, "shadow": True, "p_label": 0.1}]
 
 
 def unit_term(tb_ford, tb_true, srcs, impl, asts, strict=True):
@@ -397,7 +404,11 @@ def _replay(chk, rep):
         print("regexes:", I.regexes(rep["text"]), "judge:", out)
         return 1 if out else 0
     if "line" in rep and "batches" in rep:
-        out = I.add_calls(rep["batches"], rep["earlier"], rep["line"])
+        if "candidates" in rep:
+            out = I.add_calls2(rep["batches"], rep["earlier"], rep["candidates"], rep["line"])
+            out = None if out is None else list(out)
+        else:
+            out = I.add_calls(rep["batches"], rep["earlier"], rep["line"])
         print("_add_procedure_calls:", out, "recorded at the time:", rep.get("impl"))
         return 1 if out == rep.get("impl") else 0
     if "line" in rep and "retlevel" in rep:
